@@ -84,7 +84,10 @@ std::string new_dir()
 {
     const char* base = getenv("DJV_SCRATCH");
     std::string b = base ? base : "/dev/shm";
-    std::string d = b + "/djv." + std::to_string(getpid()) + "." + std::to_string(S.ndirs++);
+    // every on-disk library lives under a name that is legal but awkward: blanks, '#', '?', '&', '%41', an
+    // apostrophe and a non-ASCII letter (a path handed to SQLite as a URI, to a shell or to a format string would
+    // trip over one of them; round 5, seeded C10-3)
+    std::string d = b + "/djv." + std::to_string(getpid()) + "." + std::to_string(S.ndirs++) + " Engine Library #2 ?x=%41&y '\xc3\xbc";
     fs::remove_all(d);
     fs::create_directories(d);
     S.made_dirs.push_back(d);
@@ -342,6 +345,15 @@ DJV_CMD(create, "create")
             g_wrap.handles.clear();
             std::error_code ec;
             std::filesystem::remove(std::filesystem::path(S.dir) / "m.db", ec);
+        }
+        // `create <2.x schema> disk beside <1.x schema>`: the directory already holds a legacy library (the state of
+        // an Engine Library folder after a migration); the new library is created next to it
+        if (a.size() >= 5 && a.at(3) == "beside")
+        {
+            {
+                auto old = e::create_database(S.dir, schema_of(a.at(4)));
+            }
+            g_wrap.handles.clear();
         }
         S.db = e::create_database(S.dir, sch);
     }
@@ -708,6 +720,53 @@ DJV_CMD(get, "get")
         return std::to_string((long long)t3.id());
     }
     throw bad_command{"field " + f};
+}
+
+// every per-field getter of a track as one text (an exception is part of the answer)
+std::string djv::lib::track_getters_text(const dj::track& t)
+{
+    auto g = [](const char* name, auto&& f) -> std::string
+    {
+        try
+        {
+            return std::string(" ") + name + "=" + f();
+        }
+        catch (const std::exception&)
+        {
+            return std::string(" ") + name + "=throw";
+        }
+    };
+    std::string o;
+    o += g("valid", [&] { return std::string(t.is_valid() ? "1" : "0"); });
+    o += g("album", [&] { return so(t.album()); });
+    o += g("artist", [&] { return so(t.artist()); });
+    o += g("average_loudness", [&] { return fo(t.average_loudness()); });
+    o += g("beatgrid", [&] { return wr_grid(t.beatgrid()); });
+    o += g("bitrate", [&] { return io_(t.bitrate()); });
+    o += g("bpm", [&] { return fo(t.bpm()); });
+    o += g("comment", [&] { return so(t.comment()); });
+    o += g("composer", [&] { return so(t.composer()); });
+    o += g("duration", [&] { auto d = t.duration(); return d ? std::to_string((long long)d->count()) : std::string("none"); });
+    o += g("file_extension", [&] { return hexstr(t.file_extension()); });
+    o += g("filename", [&] { return hexstr(t.filename()); });
+    o += g("genre", [&] { return so(t.genre()); });
+    o += g("hot_cues", [&] { return wr_cues(t.hot_cues()); });
+    o += g("hot_cue_at3", [&] { return wr_optcue(t.hot_cue_at(3)); });
+    o += g("key", [&] { auto k = t.key(); return k ? std::to_string((int)*k) : std::string("none"); });
+    o += g("last_played_at", [&] { return tp(t.last_played_at()); });
+    o += g("loops", [&] { return wr_loops(t.loops()); });
+    o += g("loop_at3", [&] { return wr_optloop(t.loop_at(3)); });
+    o += g("main_cue", [&] { return fo(t.main_cue()); });
+    o += g("publisher", [&] { return so(t.publisher()); });
+    o += g("rating", [&] { return io_(t.rating()); });
+    o += g("relative_path", [&] { return hexstr(t.relative_path()); });
+    o += g("sample_count", [&] { return uo_(t.sample_count()); });
+    o += g("sample_rate", [&] { return fo(t.sample_rate()); });
+    o += g("title", [&] { return so(t.title()); });
+    o += g("track_number", [&] { return io_(t.track_number()); });
+    o += g("waveform", [&] { return std::to_string(std::hash<std::string>{}(wr_wf(t.waveform()))); });
+    o += g("year", [&] { return io_(t.year()); });
+    return o;
 }
 
 // set <trackvar> <field> <value...>
